@@ -65,6 +65,9 @@ pub const FAULT_KINDS: [OpKind; 5] = [OpKind::Write, OpKind::Rename, OpKind::Ope
 pub const NAME_PARTS: &[&str] = &[
     "a", "b.txt", "sp ace", "q'uo", "d\"q", "back\\sl", "$dol", "st*r", "qu?", "[br]", "tab\there", "-dash", ".hid", "ünï", "e", "x.tmp", "target",
     "new\nline",
+    // siblings of directory names that sort differently as strings and as paths
+    // (a character below '/' after a name that is also a directory: "a/…" vs "a.b", "a b", "a-b")
+    "a.b", "a b", "a-b", "e!", "target.old",
 ];
 
 pub fn body(tag: u32, size: u32) -> Vec<u8> {
